@@ -27,6 +27,7 @@ type Cfg struct {
 	MaxGoroutines   int
 	MaxTimerFires   int
 	MapOrderReverse bool
+	MapOrderIn      string // explore every iteration order of maps with 2..3 entries ranged over in functions whose name contains this
 	SolverTimeoutMs int
 	Workers         int
 	SampleEvery     int
@@ -36,7 +37,7 @@ type Cfg struct {
 }
 
 func defaultCfg() Cfg {
-	return Cfg{MaxSteps: 3_000_000, Unwind: 8, MaxDecisions: 400, MaxPaths: 200_000, PreemptBound: -1,
+	return Cfg{MaxSteps: 3_000_000, Unwind: 8, MaxDecisions: 400, MaxPaths: 200_000, PreemptBound: 1,
 		MaxGoroutines: 8, MaxTimerFires: 64, SolverTimeoutMs: 30000, Workers: 8, Solver: "z3"}
 }
 
